@@ -702,3 +702,159 @@ Proof.
   rewrite Forall_forall in Hes. destruct (Hes e He) as (K7 & K8 & K9 & K10).
   unfold iat_entry_ok. repeat split; assumption.
 Qed.
+
+(* ------------------------------------------------------------------ input level: a standard file and an ADV file in one *)
+
+Section MixedInput.
+Variables (A : Arith.tables) (T : Offsets.otable) (TT : BuildIAT.ttable).
+Hypothesis HA : agree A T.
+Hypothesis Hguard : BuildIAT.tt_adv_iat_guard TT = true.
+Variables (hd : bytes -> hdrp) (sp : bytes -> stdp) (ip : bytes -> ipay) (ap : bytes -> apay).
+
+Local Notation fb := (f_batch A (hp_of hd) (fp_of sp)).
+Local Notation pok := (pair_ok A (hp_of hd) (fp_of sp)).
+
+(* a list of standard batches and ADV batches (File.Create never returns such a file; it can be assembled) *)
+Definition sa_file (inp : list batch) : Prop :=
+  Forall (fun b => b_kind b = Flatten.KStd /\
+            ((hd_adv (hd (b_sig b)) = false /\ b_entries b <> [] /\ b_adv b = []) \/
+             (hd_adv (hd (b_sig b)) = true /\ b_entries b = [] /\ b_adv b <> []))) inp.
+
+Lemma sa_pairs_ok inp : sa_file inp ->
+  Forall (fun b => hd_adv (hd (b_sig b)) = false -> Arith.validate_batch A (fb b) = Arith.ROk) inp ->
+  Forall pok (ids inp).
+Proof.
+  intros Hsa Hv. induction inp as [|b l IH]; unfold ids; cbn [flat_map]; [constructor|].
+  inversion Hsa as [|? ? (_ & Hb) Hl]; subst. inversion Hv as [|? ? Vb Vl]; subst.
+  apply Forall_app. split; [|now apply IH].
+  destruct Hb as [(Hn & _ & _)|(_ & He & _)].
+  - apply valid_pairs. now apply Vb.
+  - unfold ids_of. rewrite He. constructor.
+Qed.
+
+(* The standard batches satisfy the hypotheses of C12_succeeds (validity in the Arith sense, header valid,
+   trace numbers carrying the ODFI, totals within the file limit), the ADV batches those of C12_succeeds_adv
+   (header valid, at most 9998 ADV entries), the category rule holds, and the list holds at least one batch
+   of each kind: every consolidated batch passes its Create, an ADV batch stands next to a standard batch
+   in the new file, and File.Create refuses it — FlattenBatches returns that error, for every processing
+   order and map order *)
+Theorem flatten_mixed_input inf inp r :
+  sa_file inp ->
+  (exists b, In b inp /\ b_entries b <> []) -> (exists b, In b inp /\ b_adv b <> []) ->
+  Forall traces_nodup inp ->
+  Forall (fun b => hd_adv (hd (b_sig b)) = false -> Arith.validate_batch A (fb b) = Arith.ROk) inp ->
+  Forall (hdr_pair hd) (ids inp) ->
+  Forall (fun p => hd_adv (hd (fst p)) = true /\ hd_ok (hd (fst p)) = true) (adv_ids inp) ->
+  sum_ids (db_e T sp) inp <= Arith.t_file_limit A -> sum_ids (cr_e T sp) inp <= Arith.t_file_limit A ->
+  Arith.t_file_limit A <= Arith.t_batch_limit A ->
+  BuildIAT.zlen (adv_ids inp) <= 9998 ->
+  cat_rule inp ->
+  flatten_full_spec A T TT hd sp ip ap inf inp r ->
+  fst r = FErrCreate.
+Proof.
+  intros Hsa (bs & Hbs & Ebs) (ba & Hba & Eba) Hnd Hv Hhp Hap L1 L2 L3 Hsz Hcat (order & all & Hadm & Hall & ->).
+  assert (Hs : flatten_spec inp (finalize all)) by (exists order, all; split; [exact Hadm|split; [exact Hall|reflexivity]]).
+  destruct Hadm as (Hperm & Hsorted). unfold sa_file in Hsa.
+  assert (Hk : kinds_consistent inp).
+  { intros a b Ha Hb _. rewrite Forall_forall in Hsa. destruct (Hsa a Ha) as (-> & _). now destruct (Hsa b Hb) as (-> & _). }
+  assert (Hne' : Forall nonempty inp).
+  { eapply Forall_impl; [|exact Hsa]. intros x (_ & [(_ & H & _)|(_ & _ & H)]); [now left|now right]. }
+  destruct (flatten_conservation inp _ Hk Hs) as (P1 & P2).
+  destruct (flatten_wellformed inp _ Hnd Hne' Hs) as (Hw & _).
+  pose proof (flatten_pairs inp _ pok Hk Hs (sa_pairs_ok inp Hsa Hv)) as Hpok.
+  pose proof (flatten_pairs inp _ (hdr_pair hd) Hk Hs Hhp) as Hhdr.
+  pose proof (flatten_category inp _ Hk (cat_rule_uniform inp Hcat) Hs) as Hck.
+  assert (Hcok : forallb category_ok (finalize all) = true).
+  { unfold checked in Hck. destruct (forallb category_ok (finalize all)); [reflexivity|discriminate]. }
+  assert (Hap' : Forall (fun p => hd_adv (hd (fst p)) = true /\ hd_ok (hd (fst p)) = true) (adv_ids (finalize all)))
+    by (eapply Permutation_Forall; [apply Permutation_sym, P2|exact Hap]).
+  destruct (run_ids order (kinds_consistent_perm _ _ (Permutation_sym Hperm) Hk)) as (R1 & R2).
+  assert (Pall : Permutation (ids (pre all)) (ids inp)).
+  { rewrite (pre_ids all), (ids_perm _ _ Hall), R1. now apply ids_perm. }
+  assert (Qall : Permutation (adv_ids (pre all)) (adv_ids inp)).
+  { unfold pre. rewrite adv_ids_map_sort_entries, (adv_ids_perm _ _ (sort_by_perm num_ltb all)), (adv_ids_perm _ _ Hall), R2.
+    now apply adv_ids_perm. }
+  assert (Hkind : Forall (fun b => b_kind b = Flatten.KStd) (pre all)).
+  { assert (Ho : Forall (fun b => b_kind b = Flatten.KStd) order).
+    { apply Forall_forall. intros b Hb. eapply Permutation_in in Hb; [|exact Hperm].
+      rewrite Forall_forall in Hsa. now destruct (Hsa b Hb). }
+    pose proof (run_P (fun b => b_kind b = Flatten.KStd) (fun m b Hm _ _ => eq_trans (consume_kind m b) Hm) order Ho) as Hr.
+    rewrite Forall_forall in Hr.
+    apply Forall_forall. intros x Hx. unfold pre in Hx. apply in_map_iff in Hx as (y & <- & Hy). cbn [sort_entries b_kind].
+    apply Hr. eapply Permutation_in; [exact Hall|]. eapply Permutation_in; [apply sort_by_perm|exact Hy]. }
+  rewrite Forall_forall in Hw, Hpok, Hhdr, Hap', Hkind.
+  (* a signature is either standard or ADV *)
+  assert (Hexcl : forall y e a, In y (finalize all) -> In e (b_entries y) -> In a (b_adv y) -> False).
+  { intros y e a Hy He Ha.
+    destruct (Hhdr (b_sig y, e) (in_ids y _ e Hy He)) as (F & _). cbn [fst] in F.
+    destruct (Hap' (b_sig y, a) (in_adv_ids y _ a Hy Ha)) as (G & _). cbn [fst] in G. congruence. }
+  (* the standard survivor *)
+  destruct (b_entries bs) as [|e0 q0] eqn:Ee0; [congruence|].
+  assert (Hin0 : In (b_sig bs, e0) (ids (pre all))).
+  { eapply Permutation_in; [apply Permutation_sym, Pall|]. apply in_ids; [exact Hbs|rewrite Ee0; now left]. }
+  unfold ids in Hin0. apply in_flat_map in Hin0 as (y & Hy & Hin0).
+  unfold ids_of in Hin0. apply in_map_iff in Hin0 as (e1 & Ee1 & He1).
+  (* the ADV survivor *)
+  destruct (b_adv ba) as [|a0 q1] eqn:Ea0; [congruence|].
+  assert (Hin1 : In (b_sig ba, a0) (adv_ids (pre all))).
+  { eapply Permutation_in; [apply Permutation_sym, Qall|]. apply in_adv_ids; [exact Hba|rewrite Ea0; now left]. }
+  unfold adv_ids in Hin1. apply in_flat_map in Hin1 as (x & Hx & Hin1).
+  unfold adv_ids_of in Hin1. apply in_map_iff in Hin1 as (a1 & Ea1 & Ha1).
+  apply (mixed_adv_created A T TT Hguard hd sp ip ap inf all x y Hx); [|exact Hy|left].
+  - (* created_a x *)
+    destruct (pre_in_out all x Hx) as (z & Hz & Kz & Sz & Ez & Az).
+    assert (Hze : b_entries z = []).
+    { destruct (b_entries z) as [|e q] eqn:E; [reflexivity|]. exfalso.
+      apply (Hexcl z e a1 Hz); [rewrite E; now left|now rewrite Az]. }
+    assert (Hin : In (b_sig z, a1) (adv_ids (finalize all))) by (apply in_adv_ids; [exact Hz|now rewrite Az]).
+    destruct (Hap' _ Hin) as (Had & Hok). cbn [fst] in Had, Hok.
+    split; [now apply Hkind|]. split; [now rewrite <- Sz|].
+    assert (Hc : category_ok x = true).
+    { rewrite forallb_forall in Hcok. specialize (Hcok z Hz). unfold category_ok in *. now rewrite <- Ez, <- Az. }
+    assert (Hlen : BuildIAT.zlen (b_adv x) <= 9998).
+    { rewrite <- Az. unfold BuildIAT.zlen. pose proof (adv_member_le _ z Hz) as Hm.
+      rewrite (Permutation_length P2) in Hm. unfold BuildIAT.zlen in Hsz. lia. }
+    assert (Hsome : create_adv TT hd ap x <> None).
+    { apply create_adv_iff; try assumption; [now rewrite <- Sz|now rewrite <- Ez|].
+      intros En. rewrite En in Ha1. destruct Ha1. }
+    destruct (create_adv TT hd ap x) as [a'|]; [now exists a'|congruence].
+  - (* created y *)
+    destruct (pre_in_out all y Hy) as (z & Hz & Kz & Sz & Ez & Az).
+    destruct (Hw z Hz) as (Hso & _).
+    assert (Hza : b_adv z = []).
+    { destruct (b_adv z) as [|a q] eqn:E; [reflexivity|]. exfalso.
+      apply (Hexcl z e1 a Hz); [now rewrite Ez|rewrite E; now left]. }
+    assert (Hyne : b_entries y <> []) by (intros En; rewrite En in He1; destruct He1).
+    assert (Hidx : forall e, In e (b_entries y) -> In (b_sig y, e) (ids (finalize all))).
+    { intros e He. rewrite <- Sz. apply in_ids; [exact Hz|now rewrite Ez]. }
+    destruct (Hhdr _ (Hidx e1 He1)) as (Hna & Hok & _). cbn [fst] in Hna, Hok.
+    split; [now apply Hkind|]. split; [exact Hna|].
+    assert (Hamt : forall p, In p (ids (finalize all)) -> 0 <= e_amount (snd p)).
+    { intros p Hp. destruct (Hpok p Hp) as (_ & _ & Hst & _).
+      apply entry_static_spec in Hst as [Hst _]. apply validate_entry_facts in Hst as (_ & _ & Ha). now destruct (Ha eq_refl). }
+    assert (Hfit : fits A sp z).
+    { unfold fits. rewrite <- (full_debit A T HA sp), <- (full_credit A T HA sp), (debits_sum T sp), (credits_sum T sp). split.
+      - eapply Z.le_trans; [apply (sum_member_le (db_e T sp) (finalize all) z); [|exact Hz]|].
+        + intros p Hp. specialize (Hamt p Hp). unfold db_e, Offsets.db_amt, to_off_entry. cbn [Offsets.e_code Offsets.e_amount].
+          destruct (Offsets.mem _ (Offsets.t_credit T)); [lia|]. destruct (Offsets.mem _ (Offsets.t_debit T)); lia.
+        + rewrite (sum_ids_perm _ _ _ P1). lia.
+      - eapply Z.le_trans; [apply (sum_member_le (cr_e T sp) (finalize all) z); [|exact Hz]|].
+        + intros p Hp. specialize (Hamt p Hp). unfold cr_e, Offsets.cr_amt, to_off_entry. cbn [Offsets.e_code Offsets.e_amount].
+          destruct (Offsets.mem _ (Offsets.t_credit T)); lia.
+        + rewrite (sum_ids_perm _ _ _ P1). lia. }
+    assert (Hvy : Arith.validate_batch A (fb y) = Arith.ROk).
+    { destruct Hfit as (F1 & F2). apply pairs_valid.
+      - apply Forall_forall. intros p Hp. unfold ids_of in Hp. apply in_map_iff in Hp as (e & <- & He). now apply Hpok, Hidx.
+      - exact Hyne.
+      - rewrite <- Ez. exact Hso.
+      - rewrite <- Ez. exact F1.
+      - rewrite <- Ez. exact F2. }
+    assert (Hcy : category_ok y = true).
+    { rewrite forallb_forall in Hcok. specialize (Hcok z Hz). unfold category_ok in *. now rewrite <- Ez, <- Az. }
+    destruct (create_std_spec A T HA hd sp y Hok Hyne) as (b' & Hc & He & Hctl & Hsk); [|exact Hvy|exact Hcy|].
+    + unfold traces_prefixed. apply Forall_forall. intros e He. now destruct (Hhdr _ (Hidx e He)) as (_ & _ & Ht).
+    + exists b'. split; [exact Hc|]. split; [exact Hctl|]. split; [exact He|]. split; [now rewrite Hsk|].
+      now rewrite (is_category_std_ok y Hyne).
+Qed.
+
+End MixedInput.
